@@ -312,12 +312,18 @@ def run_case(case, ctx, res):
                 continue
             wrong = cur + int(rng.integers(1, 4)) if rng.random() < 0.7 or cur == 0 else cur - 1
             obj, _ = _make_member(osy, rng, wrong, 63)
-            tgt = list(model)[0] if (len(model) > 1 and rng.random() < 0.3) else [k for k in keys if k not in model][0] \
-                if len(model) < len(keys) else None
-            if tgt is None or (tgt in model and len(model) == 1):
+            # target: a new key, or an existing one (replacement) - including the first member, whose shape
+            # defines the group's: a mis-shaped replacement must be rejected there as well
+            r = rng.random()
+            free = [k for k in keys if k not in model]
+            if r < 0.25:
+                tgt = list(model)[0]
+            elif r < 0.45 and len(model) > 1:
+                tgt = list(model)[int(rng.integers(1, len(model)))]
+            elif free:
+                tgt = free[0]
+            else:
                 continue
-            if tgt == list(model)[0]:
-                continue   # replacing the first member defines a new reference shape
             steps.append(f"bad-insert({tgt}, n={wrong})")
             before = fp(dg)
             o = attempt(dg.__setitem__, tgt, obj)
